@@ -13,7 +13,7 @@ EXPLANATION = (
     "clear re-allocates with the field's own len/element_bits. R11-growth-census: every growth operation (push/insert/extend) on "
     "a container field outside constructors is guarded by a capacity test against a configuration field, paired with a removal on "
     "the same path, followed by a size check that drains it, or the documented LossyCounter exception."
-    " TDigest's centroid bound is a function of the scale functions' n, so n_samples must be counted +1 per insert (R16-insert); CMSHeap's `paired with a removal` bound relies on C10's paired-update rule — both are applied here."
+    " TDigest's centroid bound is a function of the scale functions' n, so n_samples must be counted +1 per insert (R16-insert) and merge must fuse under the scale-function criterion (C04's R04-merge-criterion / R04-sorted-input / R04-scale-clamp / R04-backlog-policy); CMSHeap's `paired with a removal` bound relies on C10's paired-update rule — both are applied here."
 )
 NOT_DECIDED = "that TDigest's centroids number O(delta) after a merge (C04's numeric clause); allocator slack and Vec growth factors"
 ASSUMPTIONS = ["IntVector::block_with_fill(bits, n, v) allocates n storage blocks", "FixedBitSet::with_capacity(n) allocates n bits", "vec![x; n] allocates n elements"]
@@ -167,6 +167,9 @@ def run(ctx):
     # TDigest: the centroid bound is a function of the scale function's n = number of samples, which must be counted +1 per insert
     from .C16 import insert_rules
     insert_rules(ctx)
+    # ... and of the merge criterion: one unit of the scale function per cluster, weights normalised by the total weight (C04's structure rules)
+    from .C04 import structure_rules
+    structure_rules(ctx)
     # CMSHeap: `paired with a removal` bounds the heap only if the removal hits the entry it is meant to replace:
     # that is C10's paired-update rule (same key, counter stepped by exactly one, re-keyed n-1 -> n)
     ha = ctx.anchor("topk::cmsheap::CMSHeap::add")
